@@ -1907,11 +1907,11 @@ func sourcePred(atoms []string) func(ssa.Value) bool {
 		for _, a := range atoms {
 			switch {
 			case strings.HasPrefix(a, "param:"):
-				if p, ok := v.(*ssa.Parameter); ok && p.Name() == a[6:] {
+				if p, ok := v.(*ssa.Parameter); ok && frozenParamName(p) == a[6:] {
 					return true
 				}
 			case strings.HasPrefix(a, "freevar:"):
-				if fv, ok := v.(*ssa.FreeVar); ok && (a == "freevar:*" || fv.Name() == a[8:]) {
+				if fv, ok := v.(*ssa.FreeVar); ok && (a == "freevar:*" || frozenFreeVarName(fv) == a[8:]) {
 					return true
 				}
 			case strings.HasPrefix(a, "field:"):
@@ -2353,13 +2353,14 @@ func (r *Report) NoWriteThroughFields(key, fnKey string, fields ...string) {
 	r.OK(k, d, w.FnPos(fn), "no assignment")
 }
 
-// FreeVarWriters: the captured local `name` of fn is appended-to / assigned only in the listed closures (or fn itself
-// for its zero initialisation).
-func (r *Report) FreeVarWriters(key, fnKey, name string, allowed []string) {
+// FreeVarWriters: the captured local of fn whose type ends with typeSuffix (identified by type, not by its source
+// name) is appended-to / assigned only in the listed closures (or fn itself for its empty initialisation).
+func (r *Report) FreeVarWriters(key, fnKey, typeSuffix string, allowed []string) {
 	w := r.W
 	fn := w.Fn(fnKey)
-	d := fmt.Sprintf("local %s of %s is written only in %v", name, fnKey, allowed)
-	k := key + "|" + fnKey + "|" + name
+	name := typeSuffix
+	d := fmt.Sprintf("the captured local of type %s in %s is written only in %v", typeSuffix, fnKey, allowed)
+	k := key + "|" + fnKey + "|" + typeSuffix
 	if fn == nil {
 		r.Unres(k, d, "function not found")
 		return
@@ -2367,8 +2368,20 @@ func (r *Report) FreeVarWriters(key, fnKey, name string, allowed []string) {
 	var alloc *ssa.Alloc
 	for _, b := range fn.Blocks {
 		for _, in := range b.Instrs {
-			if a, ok := in.(*ssa.Alloc); ok && a.Comment == name {
-				alloc = a
+			if a, ok := in.(*ssa.Alloc); ok && a.Heap {
+				if pt, isP := a.Type().(*types.Pointer); isP && strings.HasSuffix(pt.Elem().String(), typeSuffix) {
+					captured := false
+					if a.Referrers() != nil {
+						for _, ref := range *a.Referrers() {
+							if _, isMC := ref.(*ssa.MakeClosure); isMC {
+								captured = true
+							}
+						}
+					}
+					if captured {
+						alloc = a
+					}
+				}
 			}
 		}
 	}
